@@ -9,6 +9,7 @@ def main():
     chk = common.Check('C11')
     import cfmt_common as C
     proved = chk.prove('I18n.Props.C11', generated=('cfmt',))
+    tie_ok = C.prove_tie(chk)
     problems = ' '.join(chk.lean.problems)
     driver_ok = os.path.exists(common.driver_path()) and not any('untranslatable' in s for s in chk.lean.translation.values()) \
         and 'Driver' not in problems and 'I18n.Model' not in problems and 'I18n.Spec' not in problems
